@@ -193,6 +193,19 @@ impl<W, R, T> Runtime<W, R, T> {
     }
 }
 
+#[cfg(xray_verif)]
+impl<W, R, T> Runtime<W, R, T> {
+    /// verification hook (read-only): bytes currently accounted for live values
+    pub fn verif_accounted_bytes(&self) -> usize {
+        usize::from(self.stats.borrow().size)
+    }
+
+    /// verification hook (read-only): user-defined calls counted since the last reset
+    pub fn verif_ud_calls(&self) -> usize {
+        self.stats.borrow().ud_calls
+    }
+}
+
 pub trait ProspectiveSize {
     fn prospective_size(&self) -> usize;
 }
